@@ -18,7 +18,7 @@ for p in props:
         'evidence_file': 'evidence/%s.json' % p['id'],
         'replay_cmd_template': './check %s --replay {path}' % p['id'],
         'engine': c.get('engine', 'hv'),
-        'level_claimed': {'category': 'proof', 'text': c['text'], 'design_ref': 'DESIGN.md section 4 %s' % p['id']},
+        'level_claimed': {'category': 'proof', 'text': c['text'], 'design_ref': 'DESIGN.md section 4 %s and section 9' % p['id']},
         'level_note': c['note'],
         'technique': c['technique'],
     })
@@ -29,11 +29,16 @@ m = {
               'baseline_off_cmd': BASE['cmd'].replace(' --junitxml=<file>', ''), 'source_commits': [], 'add_only': True},
     'engines': [
         {'name': 'hv/pyvc (E1)', 'path': 'hv/vc', 'serves_properties': sorted(CLAIMED), 'kind_free_text': 'own deductive verifier: symbolic execution of the real source ast into VCs with sidecar contracts/loop invariants, discharged by z3 then cvc5'},
-        {'name': 'hv/relang (E2)', 'path': 'hv/lang', 'serves_properties': [], 'kind_free_text': 'symbolic-automata decision procedure over U+0000..U+10FFFF for regular-language obligations'},
+        {'name': 'hv/relang (E2)', 'path': 'hv/lang', 'serves_properties': ['C01', 'C02', 'C03', 'C04', 'C05', 'C06', 'C07', 'C08', 'C09', 'C12', 'C18'],
+         'kind_free_text': 'symbolic-automata decision procedure over U+0000..U+10FFFF for regular-language obligations; shape-typed symbolic strings (hv/vc/shapes.py)'},
+        {'name': 'hv/peg (E3)', 'path': 'hv/peg', 'serves_properties': ['C01', 'C03', 'C07', 'C08', 'C09'],
+         'kind_free_text': 'exact recursive-descent (PEG) semantics of the pyparsing object graph of the running hszinc.zincparser as marked regular languages (product automata, nesting unrolled), decided by language inclusion; token alignment for the real parse actions (props/zincact.py)'},
+        {'name': 'og (E4)', 'path': 'props/C13.py', 'serves_properties': ['C13'],
+         'kind_free_text': 'Owicki-Gries proof outline VCs over atomic actions extracted from the AST, discharged through E1/z3'},
     ],
     'checks': checks,
     'not_applicable': na,
-    'notes': 'fix: commits in /repo are recorded in known_findings.json as fixed entries; see DESIGN.md.',
+    'notes': 'fix: commits in /repo are recorded in known_findings.json as fixed entries; DESIGN.md section 9 describes what was built, the known findings and the seeded changes (seeded/, tools/seedrun.sh).',
 }
 json.dump(m, open(os.path.join(ROOT, 'MANIFEST.json'), 'w'), indent=1)
 print('claimed', [c['property_id'] for c in checks])
